@@ -136,6 +136,7 @@ func (c *Case) equip(tid int, vm *otto.Otto) {
 		*logp = append(*logp, strings.Join(parts, " "))
 		return otto.UndefinedValue()
 	})
+	_ = vm.Set("TID", tid+1) // per-thread constant: lets equal programs pass different arguments
 	vm.SetRandomSource(lcg(uint32(7919 * (tid + 1))))
 	if c.hooked {
 		y := c.yield
